@@ -320,6 +320,27 @@ func (r *reparseImpl) Exec(h *vh.H, op string) string {
 		h.Nontrivial(op)
 		return r.report(h, op, "j5s", results)
 
+	case "src":
+		// src <import path> <hex proto source>: a hand-written proto file, imports from the built-in registry
+		if len(f) != 3 {
+			return "bad-op"
+		}
+		b, ok := vh.UnHex(f[2])
+		if !ok {
+			return "bad-op"
+		}
+		fd, err := compileText(f[1], string(b), protosrc.BuiltinResolver)
+		if err != nil {
+			h.Count("file.src.original-does-not-compile")
+			if os.Getenv("PRINT_DEBUG") != "" {
+				fmt.Fprintf(os.Stderr, "---- src does not compile: %v\n", err)
+			}
+			return "skip-uncompilable"
+		}
+		res := reparseFile(fd, nil, stats)
+		h.Nontrivial(op)
+		return r.report(h, op, "src", []reparseResult{res})
+
 	case "fdp":
 		// fdp <hex FileDescriptorProto dep>* <hex FileDescriptorProto main>; imports beyond the
 		// listed files come from the Go registry (descriptor.proto, google/api, j5 annotations, ...)
